@@ -313,6 +313,11 @@ def run(chk, replay=None):
     if replay:
         tc.replay_job(chk, replay, "c04")
         return
+    # in-model: the abstract toolchain satisfies its invariants and only contract outcomes have transitions
+    r0 = lib.tlc("MC_Toolchain", workers=2, timeout=600)
+    if not r0.ok:
+        raise lib.ToolError("MC_Toolchain does not hold: the contract specification itself is inconsistent\n" + r0.out[-2000:])
+    chk.set("contract_model_states", r0.distinct)
     runner = tc.Runner("c04")
     cases = tlc_cases(chk)
     jobs, templates, baselines = jobs_from_cases(chk, cases)
